@@ -12,7 +12,7 @@ CHECKS = {
    technique="TLA+ regex semantics (Regex.tla, RuleJson.tla) explored by TLC into per-rule automata; W-method conformance suite from TLC's graph replayed through validate.node",
    design="4/C01"),
  "C02": dict(
-   text="TLC evaluates the decision table of ContentClass.tla (12 content kinds + enumeration, three-valued) for every rule x ~50 abstract content classes (numeric classes split into boundary buckets at +-180, +-90, 0) x hasKids x enum dimension; every combination is concretised by constructive generators (12 strings per combination quick, 400 thorough; boundary values exact) and validated in both modes: ACCEPT/REJECT must match, both modes agree, nothing but rule errors, collecting mode never raises.",
+   text="TLC evaluates the decision table of ContentClass.tla (12 content kinds + enumeration, three-valued) for every rule x ~50 abstract content classes (numeric classes split into boundary buckets at +-180, +-90, 0) x hasKids x enum dimension; every combination is concretised by constructive generators (12 strings per combination quick, 400 thorough; boundary values exact) and validated in both modes: ACCEPT/REJECT must match, both modes agree, nothing but rule errors, collecting mode never raises. Two lexical layers enumerate ALL short strings over tiny alphabets with strict / generous grammars (Lexical.tla: int, float and the ranged kinds over {-,+,0,1,8,9,.,e}; LexDate.tla: year-or-date and time over {+,-,0,1,2,9,:,T}).",
    note="Which strings belong to a class is decided by the generators, not by the spec (DESIGN section 5). Lenient spellings, blank text, NaN/inf for unranged float, lone surrogates are UNSPEC.",
    technique="TLA+ decision table (ContentClass.tla) enumerated by TLC (MC_Content); each table row concretised and replayed through validate.node",
    design="4/C02"),
@@ -62,7 +62,7 @@ CHECKS = {
    technique="trace validation: stuttering + memo clauses of TraceForest.tla judged by TLC on recorded full-state traces; op orders enumerated by TLC",
    design="4/C11"),
  "C12": dict(
-   text="TLC explores MC_Copy: 3 templates (every field populated, namespace dicts aliased between parents and children as the API creates them) x copy of any subtree x every single edit (thorough: every pair of edits) on any node of either tree - one mutator per mutable container a node owns; CopyOK (equal, disjoint, fresh registered ids, unlisted root) is an action property of the spec. Every transition is replayed after its genuine history and the full projection of both trees is compared, so any container shared between copy and original is written through by some explored edit and shows up in the other tree.",
+   text="TLC explores MC_Copy: 3 templates (every field populated, namespace dicts aliased between parents and children as the API creates them) x copy of any subtree x every single edit (thorough: every pair of edits) on any node of either tree - one mutator per mutable container a node owns; CopyOK (equal, disjoint, fresh registered ids, unlisted root) is an action property of the spec. Every transition is replayed after its genuine history and the full projection of both trees is compared, so any container shared between copy and original is written through by some explored edit and shows up in the other tree. Every copy transition is replayed a second time on a template whose nodes were constructed with repeated explicit ids (equal copy, fresh pairwise distinct registered ids).",
    note="Trusted: TLC, projection pi, interning of text. Small-scope: trees of <= 4 nodes; values from a 2-element universe per field.",
    technique="TLA+ spec model-checked by TLC (MC_Copy); every logged transition replayed into the code with full two-tree projection compare",
    design="4/C12"),
@@ -72,7 +72,7 @@ CHECKS = {
    technique="TLA+ action properties checked by TLC; path replay + product exploration of TLC's graph against the code; trace validation of random histories",
    design="4/C13"),
  "C14": dict(
-   text="RegistryStep (the registry changes only by create/copy/import adding exactly the new ids and delete/replace-with-delete removing exactly the named subtree) is an action property checked by TLC over every history of create, import (xml/json), copy, attach, detach, replace(+-delete), delete(+-children) with <= 4 (thorough 5) ids; every transition is replayed after the genuine history of its source state, comparing registry membership by object identity, returned ids and id uniqueness. prune / expand / import on the EML fixture with planted junk are trace-validated (live nodes registered, discarded nodes gone, unrelated ids untouched); 20k-200k fresh ids checked for collisions.",
+   text="RegistryStep (the registry changes only by create/copy/import adding exactly the new ids and delete/replace-with-delete removing exactly the named subtree) is an action property checked by TLC over every history of create, import (xml/json), copy, attach, detach, replace(+-delete), delete(+-children) with <= 4 (thorough 5) ids; every transition is replayed after the genuine history of its source state, comparing registry membership by object identity, returned ids and id uniqueness; after every transition an id-only observer drops every node reference, collects garbage and looks every registered id up again. prune / expand / import on the EML fixture with planted junk are trace-validated (live nodes registered, discarded nodes gone, unrelated ids untouched); 20k-200k fresh ids checked for collisions.",
    note="Trusted: TLC, pi. Preconditions of the statement are enabling conditions of the spec (no id reuse, delete only registered ids).",
    technique="TLA+ action property checked by TLC (MC_Reg); transitions replayed after genuine histories; TraceForest.tla judges prune/expand/import events",
    design="4/C14"),
@@ -92,12 +92,12 @@ CHECKS = {
    technique="TLA+ Acceptable/RankIndex model-checked by TLC on the real rule table; TLC's acceptable sets replayed against the code; trace validation for long sequences",
    design="4/C17"),
  "C18": dict(
-   text="TreeEq (name, content, tail, prefix, namespace map, attributes, extras, children recursively in order) is evaluated by TLC on every ordered pair of distinct nodes in every state of MC_Copy (templates, copies, and every single/double edit anywhere - i.e. pairs differing in exactly one field of one node at any depth and child position, plus unrelated subtrees); Node.is_equal is compared on all those pairs in both argument orders.",
+   text="TreeEq (name, content, tail, prefix, namespace map, attributes, extras, children recursively in order) is evaluated by TLC on every ordered pair of distinct nodes in every state of MC_Copy (templates, copies, and every single/double edit anywhere - i.e. pairs differing in exactly one field of one node at any depth and child position, plus unrelated subtrees); Node.is_equal is compared on all those pairs in both argument orders. MC_Shapes enumerates every pair of ordered labelled trees with <= 4 nodes over two names (thorough: <= 6 nodes over one name) from their pre-order depth sequences - trees with equal label sequences and different nesting included - with the same comparison on every node pair.",
    note="Trusted: TLC, pi. Identical-object calls are not made.",
    technique="TLA+ operator TreeEq evaluated by TLC on the MC_Copy state graph; compared with the code on every ordered node pair",
    design="4/C18"),
  "C19": dict(
-   text="Evaluate.tla states the documented recommendations as, per node, the set of acceptable warning sets over a flat tree projection (names, child lists, word counts, truthiness, ORCID flag), with the UNSPEC corners as several acceptable sets. MC_EvalPlans (TLC) enumerates 5,264 dataset profiles - every threshold at -1/0/+1, every optional part present/absent, abstract text in own content / para / markdown / split / below sections / paras with only inline children, keywords over 1-2 sets, party ids none / other directory / ORCID / both. Each profile is realised as a tree that passes validate.tree (discarded and counted otherwise), evaluated into a pre-filled list and judged node by node by TraceEval.tla: no exception, earlier entries intact, (EvaluationWarning, str, node) triples, exactly an acceptable set at every node. Random rule-guided valid trees go through the same judge; mutated known-name trees, parentless nodes and text-less paras are judged for totality (evaluate.tree and evaluate.node).",
+   text="Evaluate.tla states the documented recommendations as, per node, the set of acceptable warning sets over a flat tree projection (names, child lists, word counts, truthiness, ORCID flag), with the UNSPEC corners as several acceptable sets. MC_EvalPlans (TLC) enumerates 15,248 dataset profiles (x a complete / minimal / no dataSource nested in the methods) - every threshold at -1/0/+1, every optional part present/absent, abstract text in own content / para / markdown / split / below sections / paras with only inline children, keywords over 1-2 sets, party ids none / other directory / ORCID / both. Each profile is realised as a tree that passes validate.tree (discarded and counted otherwise), evaluated into a pre-filled list and judged node by node by TraceEval.tla: no exception, earlier entries intact, (EvaluationWarning, str, node) triples, exactly an acceptable set at every node. Random rule-guided valid trees go through the same judge; mutated known-name trees, parentless nodes and text-less paras are judged for totality (evaluate.tree and evaluate.node).",
    note="Word counts and truthiness are observed by the harness projection (Python split); title words separated by spaces. Several physical/size/dataFormat children not generated.",
    technique="profile enumeration by TLC (MC_EvalPlans) + TLA+ recommendation semantics (Evaluate.tla) judging recorded evaluations with TLC (TraceEval.tla)",
    design="4/C19"),
